@@ -449,6 +449,20 @@ def run(ctx):
                 ctx.tick(1, ("Tscalar", k, cuts, method))
                 for c, e, o in v:
                     ctx.violation(c, {"kind": "target", "k": k, "cuts": cuts, "method": method, "trig": [50.0] * k, "cos": math.cos(math.radians(3.0)), "pexit": [0.5] * k, "ld": [0] * k, "dark": [True] * k, "thr": 10.0, "sn": 3.7, "sw": 1 / 3.7}, e, o)
+    # other spellings of the channel label: refused, or -- if accepted -- evaluated as the channel they spell (an
+    # "optical" that is let in but integrated without the dark-sky cut is neither)
+    for label, canon in (("optical", "Optical"), ("OPTICAL", "Optical"), (" Optical", "Optical"), ("Optical ", "Optical"), ("radio", "Radio"), ("RADIO", "Radio")):
+        ctx.tick(1, ("label", label))
+        args = (2, True, [50.0, 50.0], [math.cos(math.radians(1.5))] * 2, [0.5, 0.5], [0, 0], [True, False], 10.0, 1.0, 1.0)
+        if target_geom(2, True) is None:
+            break
+        try:
+            r, _, rec, _ = target_call(args[0], args[1], label, *args[2:])
+        except Exception:
+            continue
+        rc, refc, recc, _ = target_call(args[0], args[1], canon, *args[2:])
+        if not (close(r[0], rc[0]) and int(r[2]) == int(rc[2])):
+            ctx.violation("channel_label_means_its_channel", {"kind": "label", "label": label}, f"method={label!r} refused, or evaluated as {canon}: integral {float(rc[0])!r}, {int(rc[2])} passing", f"integral {float(r[0])!r}, {int(r[2])} passing")
     try:
         judge_target(1, True, "Cherenkov", [1.0], [0.9], [0.5], [0], [True], 10.0, 1.0, 1.0)
         bad_method = True
@@ -484,6 +498,15 @@ def replay(case):
     k = case["kind"]
     if k == "forms":
         return judge_forms(case["forms"], case["method"])
+    if k == "label":
+        canon = "Optical" if case["label"].strip().lower() == "optical" else "Radio"
+        args = (2, True, [50.0, 50.0], [math.cos(math.radians(1.5))] * 2, [0.5, 0.5], [0, 0], [True, False], 10.0, 1.0, 1.0)
+        try:
+            r, _, _, _ = target_call(args[0], args[1], case["label"], *args[2:])
+        except Exception:
+            return []
+        rc, _, _, _ = target_call(args[0], args[1], canon, *args[2:])
+        return [] if (close(r[0], rc[0]) and int(r[2]) == int(rc[2])) else [("channel_label_means_its_channel", float(rc[0]), float(r[0]))]
     if k == "diffuse":
         return judge_diffuse(case["gc"], np.array(case["U"], dtype=float), case["trig"], case["cos"], case["pexit"], case["thr"], case["sn"], case["sw"])
     if k == "diffuse_perm":
